@@ -159,6 +159,17 @@ func (e *Env) lookup(name string) (SVal, bool) {
 				}
 			}
 		}
+		if name == "visitedCount" && e.loop != nil {
+			gk := map[ssa.Value]bool{}
+			for g := range e.cur.ghost {
+				gk[g] = true
+			}
+			for _, g := range sortedValues(gk) {
+				if ck, ok := g.(countKey); ok && (e.loop.blocks[ck.r.Block()] || rangeFeeds(ck.r, e.loop)) {
+					return SVal{T: e.cur.ghost[g], Typ: types.Typ[types.Int]}, true
+				}
+			}
+		}
 	}
 	// free variables (captured by reference)
 	for _, fv := range fe.fn.FreeVars {
@@ -284,6 +295,25 @@ func (e *Env) resolveType(name string) types.Type {
 	if obj := types.Universe.Lookup(name); obj != nil {
 		if tn, ok := obj.(*types.TypeName); ok {
 			return tn.Type()
+		}
+	}
+	// type parameters of the function under verification (generic bodies)
+	for f := e.fe.fn; f != nil; f = f.Parent() {
+		if tps := f.TypeParams(); tps != nil {
+			for i := 0; i < tps.Len(); i++ {
+				if tps.At(i).Obj().Name() == name {
+					return tps.At(i)
+				}
+			}
+		}
+		if recv := f.Signature.Recv(); recv != nil {
+			if n, ok := derefNamed(recv.Type()); ok && n.TypeArgs() != nil {
+				for i := 0; i < n.TypeArgs().Len(); i++ {
+					if tp, ok := n.TypeArgs().At(i).(*types.TypeParam); ok && tp.Obj().Name() == name {
+						return tp
+					}
+				}
+			}
 		}
 	}
 	if strings.HasPrefix(name, "*") {
@@ -735,6 +765,9 @@ func (fe *FnEnc) modelComp(env *Env, tname string, mf ModelField) (string, strin
 	var srt string
 	if strings.HasPrefix(mf.Type, "set[") {
 		srt = arrSort(fe.sorts.sortOf(env.resolveType(mf.Type[4:len(mf.Type)-1])), sBool)
+	} else if strings.HasPrefix(mf.Type, "fun[") {
+		j := strings.Index(mf.Type, "]")
+		srt = arrSort(fe.sorts.sortOf(env.resolveType(mf.Type[4:j])), fe.sorts.sortOf(env.resolveType(mf.Type[j+1:])))
 	} else {
 		srt = fe.sorts.sortOf(env.resolveType(mf.Type))
 	}
@@ -780,7 +813,7 @@ func (fe *FnEnc) trSel(x ESel, env *Env) SVal {
 				}
 				h := fe.getComp(st, cn, cs)
 				var ft types.Type
-				if !strings.HasPrefix(mf.Type, "set[") {
+				if !strings.HasPrefix(mf.Type, "set[") && !strings.HasPrefix(mf.Type, "fun[") {
 					ft = env.resolveType(mf.Type)
 				}
 				return SVal{T: tSel(h, key), Typ: ft}
@@ -927,6 +960,24 @@ func (fe *FnEnc) trCall(x ECall, env *Env) SVal {
 		e2 := *env
 		e2.inOld = true
 		return fe.mat(fe.tr(x.Args[0], &e2), &e2)
+	case "held": // held(c.mu): the mutex is in the ghost held-set
+		v := fe.tr(x.Args[0], env)
+		var addr Term
+		switch {
+		case v.At != nil:
+			addr = *v.At
+		case v.Typ != nil:
+			if _, ok := v.Typ.Underlying().(*types.Pointer); ok {
+				addr = v.T
+			}
+		}
+		if addr.S == "" {
+			fe.specFail("held() needs a mutex field or pointer")
+		}
+		h := fe.getComp(env.state(), "held", arrSort(sInt, sBool))
+		return SVal{T: tSel(h, addr), Typ: types.Typ[types.Bool]}
+	case "clock":
+		return SVal{T: fe.getComp(env.state(), "clock", sInt), Typ: types.Typ[types.Int]}
 	case "now": // inside old(...): evaluate in the current state
 		e2 := *env
 		e2.inOld = false
